@@ -63,6 +63,23 @@ CLAIMS.update({
             "contract-based deductive verification (pyvc+z3)", BASE_TRUST),
 })
 
+SYNC_NOTE = BASE_TRUST + " Sync tier: filecmp.dircmp listing contract (left_only / diff_files / subdirs; deep = content comparison), shutil.copytree 'always creates the destination directories', dict semantics of documents."
+CLAIMS.update({
+    "C13": ("other", "One directory level of the file walk (_sync_job_workspaces) proved for all listings, exclude sets and strategies: left-only files copied iff not excluded, left-only directories iff "
+            "recursive, differing files iff the strategy says so, nothing else copied, every copy goes to the same relative place, common sub-directories visited with all options forwarded (the recursive "
+            "call is the induction hypothesis). sync_jobs / sync_projects wiring: reserved files excluded by exact name, exactly the selected jobs cloned or synchronised, schema gate before any effect. "
+            "Source-unchanged / idempotence / superset over whole projects: bounded run-time contracts.", "DESIGN 4/C13",
+            "contract-based deductive verification (pyvc+z3) of the per-level triple and the call-site obligations; bounded contract checking of whole-project clauses", SYNC_NOTE),
+    "C14": ("other", "'Overwritten iff the strategy returns true' and 'FileSyncConflict before touching any differing file' proved per directory level; DocSync.ByKey per nesting level: a key is "
+            "overwritten iff absent or differing-scalar-and-selected, differing mappings are merged recursively under the full dotted prefix, unselected conflicts recorded under their full name; "
+            "create_backup / create_doc_backup: on any exception of the body the document is its pre-sync content and the backup is removed.", "DESIGN 4/C14",
+            "contract-based deductive verification (pyvc+z3), generator context managers executed at their yield point", SYNC_NOTE),
+    "C15": ("other", "Dry-run frame proved for every method of _FileModifyProxy and _DocProxy (no file-system call, no document mutation, completes like the live run), for ByKey's nested writes (gated "
+            "destination required at the recursive call) and up through sync_jobs (never initialises the destination in a dry run); deep / recursive / exclude / strategy / proxy forwarding proved as call-site "
+            "obligations of sync_jobs, sync_projects and the recursive walk. parallel=True/N: bounded only (thread pool outside the sequential executor).", "DESIGN 4/C15",
+            "contract-based deductive verification (pyvc+z3): frame obligations on an effect log, call-site forwarding obligations", SYNC_NOTE),
+})
+
 NOT_YET = "not yet under contract in this round of the build (see DESIGN.md section 8 for the order); no check is registered, nothing is claimed"
 
 NA = {}
